@@ -19,7 +19,7 @@ pub fn prop() -> Prop {
         check,
         quick_runs: 24_000,
         both_profiles: false,
-        rule: "a run = 1-3 aircraft flying ground-truth trajectories (start points stratified by run index over all 59 NL zones, both sides of each of the 58 transition latitudes at 50 m..2 km, equator, +/-86.9 deg, antimeridian, Greenwich, exact CPR-zero points; <= 300 m displacement between position frames) emitting TC 9-18 squitters of alternating parity interleaved with their other formats and other aircraft; per-aircraft gaps from a mixture weighted on {9, 9.999, 9.999999, 10, 10.000001, 10.001, 11} s; channel drops, duplicates and reorders frames; -U on/off; observer strings with and without blanks; non-trivial = at least one valid pair was decoded and one frame arrived without a valid pair; distinct = distinct scripts",
+        rule: "a run = 1-3 aircraft flying ground-truth trajectories (start points stratified by run index over all 59 NL zones, both sides of each of the 58 transition latitudes at 50 m..2 km, equator, +/-86.9 deg, antimeridian, Greenwich, exact CPR-zero points; <= 300 m displacement between position frames) emitting TC 9-18 squitters of alternating parity interleaved with their other formats and other aircraft; per-aircraft gaps from a mixture weighted on {9, 9.999, 9.999999, 10, 10.000001, 10.001, 11} s; channel drops, duplicates and reorders frames; -U on/off; observer strings with and without blanks; in 8 % of the runs the wall clock is set back once or twice (also between the two frames of a pair); non-trivial = at least one valid pair was decoded and one frame arrived without a valid pair; distinct = distinct scripts",
         level_text: "seeded two-message-protocol simulation with an exact 10 s deadline on the discrete-event clock; oracle: reference pairing state machine + textbook global CPR decode with NL from its defining formula, 20 m tolerance against the encoded ground truth, haversine distance, position fields untouched by every frame that does not complete a valid pair",
     }
 }
@@ -158,6 +158,7 @@ fn gen(rng: &mut Rng, idx: u64, tier: Tier) -> Case {
     }
     delayed.sort_by_key(|e| e.0);
     for (dtm, b, tg) in delayed { lines.push(((dtm - prev).max(0), b, tg)); prev = prev.max(dtm); }
+    gen::clock_steps_back(rng, &mut lines, 0.08);
     let ch = *rng.pick(&[Chunking::Line, Chunking::Line, Chunking::Line, Chunking::Pieces]);
     let mut script = Script::file(args, vec![]);
     script.tcp = rng.chance(0.25);
@@ -245,6 +246,7 @@ fn check(case: &Case, st: &mut Stats) -> Vec<Violation> {
             }
             continue;
         }
+        if s.tag.contains("clock-back") { st.probe("clock_set_back"); }
         let odd = modes::get_bits(frame, 54, 54) as usize;
         let (la, lo) = (modes::get_bits(frame, 55, 71) as u32, modes::get_bits(frame, 72, 88) as u32);
         let e = slots.entry(a).or_default();
